@@ -1704,6 +1704,7 @@ func main() {
 		"oci/AutoSaveIndex=false": 20, "oci/AutoSaveIndex=true": 20,
 		"file/pattern/restore-fails-traversal": 3, "file/alias-tainted-histories": 5,
 		"race-mem/successes=1": 20, "race-file00/successes=1": 20, "conc-mem/P": 50, "conc-oci/P": 50, "conc-file00/P": 50,
+		"conc-mem/F": 50, "conc-oci/F": 50, "conc-oci/E": 5, "conc-oci/R": 50, "conc-file00/F": 30, "conc-file00/R": 50,
 		"mem/R/D": 50, "oci/R/D": 50, "file00/R/D": 20,
 	}
 	var missing []string
